@@ -188,7 +188,7 @@ def raised_in_field_routine(exc: BaseException) -> bool:
     (magpylib/_src/fields/field_BH_*.py, special_*.py).  Such an exception is the subject of C15 (every finite input
     yields a finite field, no exception); the relation checks count the case as inconclusive instead of reporting it
     under their own property."""
-    return innermost_lib_frame(exc).startswith(("special_", "field_BH_"))
+    return innermost_lib_frame(exc).startswith("special_")
 
 
 # --------------------------------------------------------------------------------------
